@@ -127,6 +127,10 @@ var MaxGoroutines = 20000
 // that never ends (a loop without any scheduling point) into a report.
 var ExecStart atomic.Int64
 
+// Progress counts the scheduling points of all executions of this process: an execution that is slow
+// (a loaded machine) still moves it, a loop without any scheduling point does not.
+var Progress atomic.Int64
+
 // TraceLog, if set, sees every observation as it is logged (debugging).
 var TraceLog func(string)
 
@@ -382,6 +386,7 @@ func parkForever(self *G) {
 func (s *Sched) schedule(self *G) {
 	for {
 		s.steps++
+		Progress.Add(1)
 		if s.steps > s.maxSteps {
 			s.end(StStepLimit)
 			parkForever(self)
